@@ -68,9 +68,44 @@ func newCoopObject(kind string) object {
 	case "mapcb":
 		// the plain map; programs of this kind use lwfr (a callback with a scheduling point inside the critical section,
 		// which the step model does not have): judged, not replayed
-		return newMapObj()
+		return &mapcbObj{mapObj: newMapObj()}
 	}
 	return newObject(kind)
+}
+
+// ---------------------------------------------------------------- the plain map, callbacks under the WRITE lock
+
+// mapcbObj is the plain map plus
+//
+//	loswfr:k:d:v = LoadOrStoreWithFunc(k, onLoad, create) whose onLoad callback records what it was called with (cb) and the
+//	               element that is in the map under k while it runs (now; read through the overlay-only VerifPeek, because
+//	               the callback runs under the write lock and cannot re-read through the locking API)
+//	               - specification: loswf:k:d:v, plus "the callback runs on the element that is currently in the map"
+type mapcbObj struct{ *mapObj }
+
+func (o *mapcbObj) histOp(f []string) string {
+	if f[0] == "loswfr" {
+		return "loswf:" + strings.Join(f[1:], ":")
+	}
+	return o.mapObj.histOp(f)
+}
+
+func (o *mapcbObj) exec(f []string, e *env) string {
+	if f[0] != "loswfr" {
+		return o.mapObj.exec(f, e)
+	}
+	k, d := atoi(f[1]), atoi(f[2])
+	cb, now := "nil", "nil"
+	v, loaded := o.m.LoadOrStoreWithFunc(k, func(v int) int {
+		cb = val{id: v}.String()
+		w, wok := o.m.VerifPeek(k)
+		now = optStr(val{id: w}, wok)
+		return v + d
+	}, func() int { return parseVal(f[3]).id })
+	if cb == "nil" {
+		return fmt.Sprintf("a=%s/%v/cb=nil", val{id: v}, loaded)
+	}
+	return fmt.Sprintf("a=%s/%v/cb=%s/now=%s", val{id: v}, loaded, cb, now)
 }
 
 // ---------------------------------------------------------------- udp/client messageCache
